@@ -92,7 +92,37 @@ def run(tier, seed, replay=None):
         ld = lexcorr.gen_and_compile_lexer(D)
     except (BrokenTie, TranslateError) as e:
         R.obligation('static build / lexer translation', False)
-        R.violation({'what': str(e), 'detail': getattr(e, 'detail', ''), 'theorem': 'Props/C16.v / gen_lexer'}, nofail=True)
+        # the lexer could not be translated: search on the implementation alone.  Verbatim = the stored text re-lexes (real lexer,
+        # lexemes taken by position, not token values) to the lexemes of the inner text
+        Lc = lexer_class(D)
+        nfound = 0
+        for q in inner_texts(rng, tier):
+            try:
+                toks = list(Lc().tokenize(q))
+                la = [q[t.index:t.end] for t in toks]
+            except Exception:
+                continue
+            rew = {t.type for t in toks if t.value != q[t.index:t.end]}
+            for ename, tmpl, getter in EMBED[:4]:
+                try:
+                    stored = getter(parse_sql(tmpl.format(q), D))
+                    lb = [stored[t.index:t.end] for t in Lc().tokenize(stored)]
+                except Exception:
+                    continue
+                if la != lb:
+                    if rew and rew <= known_types:
+                        for f in findings:
+                            if rew & set(f['classifier']['token_types']):
+                                R.known_finding(f'{f["id"]}: {f["what"]}')
+                        continue
+                    nfound += 1
+                    if nfound <= 3:
+                        R.violation({'command': ename, 'inner': q, 'stored': stored, 'rewritten_token_types': sorted(map(str, rew)),
+                                     'what': 'the stored inner query does not consist of the tokens the user wrote',
+                                     'found_by': 'search on the implementation (the lexer could not be translated: ' + str(e)[:200] + ')'})
+                    break
+        if not nfound:
+            R.violation({'what': str(e), 'detail': getattr(e, 'detail', ''), 'theorem': 'Props/C16.v / gen_lexer'}, nofail=True)
         return R.finish()
     rewriting = [name for name, t, r, act in ld['rules'] if act.startswith('ARewrite')]
     num = json.loads((GEN / f'Tbl_{D}.json').read_text())['num']
